@@ -1,12 +1,21 @@
 // C06 correspondence harness: Dune::VariableSizeCommunicator (forward/backward, fixed-size and variable-size data
-// handles, arbitrary message buffer size) against the Lean model, with an independent delivery oracle.
+// handles, arbitrary message buffer size, every constructor) against the Lean model, with an independent delivery
+// oracle and a send/receive balance oracle.
 //
 // op line (describes the whole distributed case, every rank parses all of it):
-//   c06 P=<np> B=<buffer items> mode=<f|v> f=<items per index, fixed mode> ty=<l|p> dirs=<f|b|fb|...> : seg;seg;...
+//   c06 P=<np> B=<buffer items> mode=<f|v> f=<items per index, fixed mode> ty=<l|p|c|v|n> dirs=<letters> [ctor=<m|M|i|I|c|a>] : seg;seg;...
+//   dirs   one letter per communicate call on the same communicator object: f forward, b backward with a handle of the
+//          case's mode; F forward, B backward with a handle of the *other* mode (fixed <-> variable)
+//   ty     item type: l long, p POD struct (generic MPITraits), c std::pair<char,double>, v FieldVector<double,3>,
+//          n std::pair<int,std::pair<short,double>>  (the MPITraits specialisations of mpitraits.hh)
+//   ctor   how the communicator object is made: m (comm,map,B)   M (comm,map) default buffer (needs B=32768)
+//          i (Interface,B)   I (Interface) default buffer   c copy-constructed, original destroyed   a copy-assigned over
+//          a communicator with another map and buffer size (after a self-assignment), original destroyed.  Default m.
 //   E p q [i1,i2,..] [j1,j2,..]   rank p's InterfaceMap[q].first  gets i1,i2,.. appended,
 //                                  rank q's InterfaceMap[p].second gets j1,j2,.. appended (same length); both ranks get a map
 //                                  entry for each other (so the maps stay symmetric whatever segments are removed)
-//   S p [n0,n1,..]                variable-size mode: the handle of rank p has size(i) = n_i (0 for i beyond the list)
+//   S p [n0,n1,..]                variable-size handle of rank p: size(i) = n_i (0 for i beyond the list)
+//   F p n                         fixed-size handle of rank p: n items per index (default: the header's f)
 // item j of local index i of rank p has the value ((p+1)*4096+i)*65536+j, so every item names its origin.
 //
 // impl (per rank, per communicate call, calls separated by " | "): for every neighbour q in map order the scatter
@@ -14,7 +23,9 @@
 // part of the canonical form (the code is free to skip zero-size indices or to call scatter(…,0)).
 // oracle (independent of the model, computed from the op line only): the k-th receive index of this rank for q gets
 // exactly the items of the k-th send index of q for this rank; every send index is gathered exactly once; the
-// counts passed to scatter are the numbers of items; returning at all is checked by the per-case alarm().
+// counts passed to scatter are the numbers of items; when the call has returned on all ranks no posted receive is left
+// without a message (point-to-point operations counted through the MPI profiling interface); returning at all is
+// checked by the per-case alarm().
 #include <config.h>
 
 #include <mpi.h>
@@ -22,9 +33,11 @@
 #include <algorithm>
 #include <cstring>
 #include <map>
+#include <memory>
 #include <set>
 #include <sstream>
 
+#include <dune/common/fvector.hh>
 #include <dune/common/parallel/interface.hh>
 #include <dune/common/parallel/mpitraits.hh>
 #include <dune/common/parallel/variablesizecommunicator.hh>
@@ -36,6 +49,32 @@ using namespace dv;
 static int g_rank = 0, g_size = 1;
 
 // ---------------------------------------------------------------------------------------------------------------
+// point-to-point operations started while a communicate call runs (profiling interface; pmpi_sched.cc owns the
+// completion calls, these are the initiation calls)
+// ---------------------------------------------------------------------------------------------------------------
+static bool g_counting = false;
+static std::map<std::pair<int, int>, long> g_sends, g_recvs;  // (peer, tag) -> operations started
+static long g_maxMsgItems = 0;
+
+static void noteSend(int count, MPI_Datatype, int dest, int tag) {
+  if (!g_counting) return;
+  ++g_sends[{dest, tag}];
+  g_maxMsgItems = std::max<long>(g_maxMsgItems, count);
+}
+extern "C" int MPI_Issend(const void* buf, int count, MPI_Datatype dt, int dest, int tag, MPI_Comm comm, MPI_Request* req) {
+  noteSend(count, dt, dest, tag);
+  return PMPI_Issend(buf, count, dt, dest, tag, comm, req);
+}
+extern "C" int MPI_Isend(const void* buf, int count, MPI_Datatype dt, int dest, int tag, MPI_Comm comm, MPI_Request* req) {
+  noteSend(count, dt, dest, tag);
+  return PMPI_Isend(buf, count, dt, dest, tag, comm, req);
+}
+extern "C" int MPI_Irecv(void* buf, int count, MPI_Datatype dt, int source, int tag, MPI_Comm comm, MPI_Request* req) {
+  if (g_counting) ++g_recvs[{source, tag}];
+  return PMPI_Irecv(buf, count, dt, source, tag, comm, req);
+}
+
+// ---------------------------------------------------------------------------------------------------------------
 // the distributed case
 // ---------------------------------------------------------------------------------------------------------------
 struct Case {
@@ -44,15 +83,20 @@ struct Case {
   bool fixed = false;
   long f = 1;
   char ty = 'l';
+  char ctor = 'm';
   std::string dirs;
   // first[p][q] / second[p][q]: the two index lists of rank p's interface with q; present[p] = keys of p's map
   std::vector<std::map<int, std::vector<long>>> first, second;
   std::vector<std::set<int>> present;
-  std::vector<std::vector<long>> sizes;  // variable mode: sizes[p][i]
+  std::vector<std::vector<long>> sizes;  // variable-size handle of rank p: sizes[p][i]
+  std::vector<long> fixedOf;             // fixed-size handle of rank p
   std::string err;
 
-  long sizeOf(int p, long i) const {
-    if (fixed) return f;
+  // is the handle of the call with direction letter d a fixed-size handle?
+  bool fixedCall(char d) const { return (d == 'f' || d == 'b') ? fixed : !fixed; }
+  static bool forwardCall(char d) { return d == 'f' || d == 'F'; }
+  long sizeOf(bool fx, int p, long i) const {
+    if (fx) return fixedOf[p];
     return (i >= 0 && i < (long)sizes[p].size()) ? sizes[p][i] : 0;
   }
 };
@@ -73,7 +117,7 @@ static Case parseCase(const std::string& line) {
   if (pos != std::string::npos) { head = line.substr(0, pos); body = line.substr(pos + 3); }
   else if (line.size() >= 2 && line.substr(line.size() - 2) == " :") head = line.substr(0, line.size() - 2);
   auto hw = words(head);
-  if (hw.size() != 7 || hw[0] != "c06") { c.err = "header"; return c; }
+  if ((hw.size() != 7 && hw.size() != 8) || hw[0] != "c06") { c.err = "header"; return c; }
   std::string v;
   try {
     if (!parseKV(hw[1], "P", v)) { c.err = "P"; return c; }
@@ -84,13 +128,19 @@ static Case parseCase(const std::string& line) {
     c.fixed = v == "f";
     if (!parseKV(hw[4], "f", v)) { c.err = "f"; return c; }
     c.f = std::stol(v);
-    if (!parseKV(hw[5], "ty", v) || (v != "l" && v != "p")) { c.err = "ty"; return c; }
+    if (!parseKV(hw[5], "ty", v) || v.size() != 1 || std::string("lpcvn").find(v[0]) == std::string::npos) { c.err = "ty"; return c; }
     c.ty = v[0];
     if (!parseKV(hw[6], "dirs", v) || v.empty()) { c.err = "dirs"; return c; }
     c.dirs = v;
-    for (char d : c.dirs) if (d != 'f' && d != 'b') { c.err = "dirs"; return c; }
-    if (c.P < 1 || c.P > 64 || c.B < 1 || c.f < 1 || (c.fixed && c.f > c.B)) { c.err = "range"; return c; }
+    for (char d : c.dirs) if (d != 'f' && d != 'b' && d != 'F' && d != 'B') { c.err = "dirs"; return c; }
+    if (hw.size() == 8) {
+      if (!parseKV(hw[7], "ctor", v) || v.size() != 1 || std::string("mMiIca").find(v[0]) == std::string::npos) { c.err = "ctor"; return c; }
+      c.ctor = v[0];
+    }
+    if (c.P < 1 || c.P > 64 || c.B < 1 || c.f < 1 || c.f > c.B) { c.err = "range"; return c; }
+    if ((c.ctor == 'M' || c.ctor == 'I') && c.B != 32768) { c.err = "default buffer size is 32768"; return c; }
     c.first.resize(c.P); c.second.resize(c.P); c.present.resize(c.P); c.sizes.resize(c.P);
+    c.fixedOf.assign(c.P, c.f);
     for (auto& seg : split(body, ';')) {
       auto w = words(seg);
       if (w.empty()) continue;
@@ -111,6 +161,11 @@ static Case parseCase(const std::string& line) {
         if (p < 0 || p >= c.P) { c.err = "S"; return c; }
         for (long x : s) if (x < 0 || x > c.B) { c.err = "S size"; return c; }
         c.sizes[p] = s;
+      } else if (w[0] == "F" && w.size() == 3) {
+        int p = std::stoi(w[1]);
+        long n = std::stol(w[2]);
+        if (p < 0 || p >= c.P || n < 1 || n > c.B) { c.err = "F"; return c; }
+        c.fixedOf[p] = n;
       } else { c.err = "segment"; return c; }
     }
   } catch (std::exception&) { c.err = "number"; }
@@ -123,8 +178,8 @@ static const std::vector<long>& listOf(const std::vector<std::map<int, std::vect
   auto it = m[p].find(q);
   return it == m[p].end() ? empty : it->second;
 }
-static const std::vector<long>& sendList(const Case& c, char d, int p, int q) { return listOf(d == 'f' ? c.first : c.second, p, q); }
-static const std::vector<long>& recvList(const Case& c, char d, int p, int q) { return listOf(d == 'f' ? c.second : c.first, p, q); }
+static const std::vector<long>& sendList(const Case& c, char d, int p, int q) { return listOf(Case::forwardCall(d) ? c.first : c.second, p, q); }
+static const std::vector<long>& recvList(const Case& c, char d, int p, int q) { return listOf(Case::forwardCall(d) ? c.second : c.first, p, q); }
 
 // ---------------------------------------------------------------------------------------------------------------
 // recording data handles
@@ -133,6 +188,10 @@ struct PodItem {  // goes through the generic MPITraits<T> (sizeof(T) bytes)
   long v;
   short tag;
 };
+typedef std::pair<char, double> PairItem;                     // MPITraits<std::pair<T1,T2>> with padding between the members
+typedef Dune::FieldVector<double, 3> FvItem;                  // MPITraits<FieldVector<K,n>>
+typedef std::pair<int, std::pair<short, double>> NestedItem;  // a pair type built from another pair type
+
 template <class T> struct ItemCodec;
 template <> struct ItemCodec<long> {
   static long make(long v) { return v; }
@@ -141,6 +200,30 @@ template <> struct ItemCodec<long> {
 template <> struct ItemCodec<PodItem> {
   static PodItem make(long v) { PodItem p; std::memset(&p, 0, sizeof p); p.v = v; p.tag = (short)(v % 31991); return p; }
   static long value(const PodItem& x, bool& damaged) { if (x.tag != (short)(x.v % 31991)) damaged = true; return x.v; }
+};
+template <> struct ItemCodec<PairItem> {
+  static PairItem make(long v) { return PairItem((char)(1 + v % 101), (double)v); }
+  static long value(const PairItem& x, bool& damaged) {
+    long v = (long)x.second;
+    if ((double)v != x.second || x.first != (char)(1 + v % 101)) damaged = true;
+    return v;
+  }
+};
+template <> struct ItemCodec<FvItem> {
+  static FvItem make(long v) { FvItem x; x[0] = (double)v; x[1] = (double)(v % 977) + 0.5; x[2] = -(double)v; return x; }
+  static long value(const FvItem& x, bool& damaged) {
+    long v = (long)x[0];
+    if ((double)v != x[0] || x[1] != (double)(v % 977) + 0.5 || x[2] != -(double)v) damaged = true;
+    return v;
+  }
+};
+template <> struct ItemCodec<NestedItem> {
+  static NestedItem make(long v) { return NestedItem((int)(v % 1000003), std::make_pair((short)(v % 31991), (double)v)); }
+  static long value(const NestedItem& x, bool& damaged) {
+    long v = (long)x.second.second;
+    if ((double)v != x.second.second || x.first != (int)(v % 1000003) || x.second.first != (short)(v % 31991)) damaged = true;
+    return v;
+  }
 };
 
 struct ScatterCall {
@@ -153,17 +236,18 @@ struct RecHandle {
   typedef T DataType;
   const Case& c;
   int rank;
+  bool fixed;
   std::vector<long> gathered;        // indices in call order
   std::vector<ScatterCall> scattered;
   bool damaged = false;
   std::string problem;
 
-  RecHandle(const Case& cc, int r) : c(cc), rank(r) {}
-  bool fixedSize() { return c.fixed; }
-  std::size_t size(std::size_t i) { return (std::size_t)c.sizeOf(rank, (long)i); }
+  RecHandle(const Case& cc, int r, bool fx) : c(cc), rank(r), fixed(fx) {}
+  bool fixedSize() { return fixed; }
+  std::size_t size(std::size_t i) { return (std::size_t)c.sizeOf(fixed, rank, (long)i); }
   template <class B> void gather(B& buf, std::size_t i) {
     gathered.push_back((long)i);
-    long n = c.sizeOf(rank, (long)i);
+    long n = c.sizeOf(fixed, rank, (long)i);
     for (long j = 0; j < n; ++j) buf.write(ItemCodec<T>::make(itemValue(rank, (long)i, j)));
   }
   template <class B> void scatter(B& buf, std::size_t i, std::size_t n) {
@@ -188,11 +272,15 @@ struct RecHandle {
 // ---------------------------------------------------------------------------------------------------------------
 static std::string itemsStr(const std::vector<long>& v) { return listStr(v); }
 
-template <class T>
-static Result runCase(const Case& c) {
-  typedef Dune::VariableSizeCommunicator<>::InterfaceMap IMap;
-  const int me = g_rank;
-  IMap imap;
+typedef Dune::VariableSizeCommunicator<> VSC;
+typedef VSC::InterfaceMap IMap;
+
+struct OpenInterface : public Dune::Interface {  // the map of an Interface is filled by its builder; here: directly
+  explicit OpenInterface(MPI_Comm comm) : Dune::Interface(comm) {}
+  using Dune::Interface::interfaces;
+};
+
+static void fillMap(const Case& c, int me, IMap& imap) {
   for (int q : c.present[me]) {
     Dune::InterfaceInformation a, b;
     const auto& fl = listOf(c.first, me, q);
@@ -203,16 +291,68 @@ static Result runCase(const Case& c) {
     for (long x : sl) b.add((std::size_t)x);
     imap[q] = std::make_pair(a, b);
   }
+}
+
+// the object under test, made the way the op line says (all of it is collective: MPI_Comm_dup / MPI_Comm_free)
+struct Subject {
+  IMap imap, other;                          // `other`: a different map for the object that gets assigned over
+  std::unique_ptr<OpenInterface> iface;
+  std::unique_ptr<VSC> comm;
+  Subject(const Case& c, int me) {
+    std::size_t B = (std::size_t)c.B;
+    switch (c.ctor) {
+      case 'm': fillMap(c, me, imap); comm.reset(new VSC(MPI_COMM_WORLD, imap, B)); break;
+      case 'M': fillMap(c, me, imap); comm.reset(new VSC(MPI_COMM_WORLD, imap)); break;
+      case 'i': iface.reset(new OpenInterface(MPI_COMM_WORLD)); fillMap(c, me, iface->interfaces()); comm.reset(new VSC(*iface, B)); break;
+      case 'I': iface.reset(new OpenInterface(MPI_COMM_WORLD)); fillMap(c, me, iface->interfaces()); comm.reset(new VSC(*iface)); break;
+      case 'c': {
+        fillMap(c, me, imap);
+        std::unique_ptr<VSC> orig(new VSC(MPI_COMM_WORLD, imap, B));
+        comm.reset(new VSC(*orig));
+        orig.reset();  // the copy has to live on its own duplicated communicator
+        break;
+      }
+      default: {  // 'a'
+        fillMap(c, me, imap);
+        Dune::InterfaceInformation a, b;
+        a.reserve(1); a.add(0); b.reserve(1); b.add(0);
+        other[me] = std::make_pair(a, b);  // self interface only: usable, but not what the case describes
+        std::unique_ptr<VSC> orig(new VSC(MPI_COMM_WORLD, imap, B));
+        comm.reset(new VSC(MPI_COMM_WORLD, other, B + 3));
+        VSC& self = *comm;
+        *comm = self;   // self-assignment keeps everything
+        *comm = *orig;  // now it has to behave like `orig` …
+        orig.reset();   // … without depending on it
+        break;
+      }
+    }
+  }
+  ~Subject() {
+    comm.reset();
+    iface.reset();  // frees its InterfaceInformation objects itself
+    for (auto& kv : imap) { kv.second.first.free(); kv.second.second.free(); }
+    for (auto& kv : other) { kv.second.first.free(); kv.second.second.free(); }
+  }
+};
+
+template <class T>
+static Result runCase(const Case& c) {
+  const int me = g_rank;
   Result res;
   std::string out, fail;
   bool nontrivial = false;
   {
-    Dune::VariableSizeCommunicator<> comm(MPI_COMM_WORLD, imap, (std::size_t)c.B);
+    Subject subj(c, me);
+    VSC& comm = *subj.comm;
     for (size_t ci = 0; ci < c.dirs.size(); ++ci) {
       char d = c.dirs[ci];
-      RecHandle<T> h(c, me);
-      if (d == 'f') comm.forward(h);
+      const bool fx = c.fixedCall(d);
+      RecHandle<T> h(c, me, fx);
+      g_sends.clear(); g_recvs.clear();
+      g_counting = true;
+      if (Case::forwardCall(d)) comm.forward(h);
       else comm.backward(h);
+      g_counting = false;
 
       // ---- canonical form: scatter calls with data, grouped by the rank the data came from ----
       std::map<int, std::vector<const ScatterCall*>> bySrc;
@@ -225,7 +365,7 @@ static Result runCase(const Case& c) {
             const auto& rl = recvList(c, d, me, q);
             const auto& sl = sendList(c, d, q, me);
             for (size_t k = 0; k < rl.size() && k < sl.size(); ++k)
-              if (rl[k] == sc.index && c.sizeOf(q, sl[k]) == 0) okz = true;
+              if (rl[k] == sc.index && c.sizeOf(fx, q, sl[k]) == 0) okz = true;
           }
           if (!okz && fail.empty()) fail = "scatter(index " + std::to_string(sc.index) + ", count 0) although no zero-size item is addressed to that index";
           continue;
@@ -254,7 +394,7 @@ static Result runCase(const Case& c) {
 
       // ---- oracle: delivery ----
       if (!h.problem.empty() && fail.empty()) fail = h.problem;
-      if (h.damaged && fail.empty()) fail = "an item arrived damaged (payload check of the POD item failed)";
+      if (h.damaged && fail.empty()) fail = "an item arrived damaged (payload check of the item type '" + std::string(1, c.ty) + "' failed)";
       for (auto& kv : bySrc)
         if (!c.present[me].count(kv.first) && fail.empty())
           fail = "data attributed to rank " + std::to_string(kv.first) + " which is no neighbour";
@@ -265,7 +405,7 @@ static Result runCase(const Case& c) {
         if (!sendList(c, d, me, q).empty()) nontrivial = true;
         std::vector<std::pair<long, std::vector<long>>> expect;
         for (size_t k = 0; k < rl.size(); ++k) {
-          long n = c.sizeOf(q, sl[k]);
+          long n = c.sizeOf(fx, q, sl[k]);
           if (n == 0) continue;
           std::vector<long> it;
           for (long j = 0; j < n; ++j) it.push_back(itemValue(q, sl[k], j));
@@ -273,7 +413,7 @@ static Result runCase(const Case& c) {
         }
         const auto& got = bySrc[q];
         for (size_t k = 0; k < std::max(expect.size(), got.size()) && fail.empty(); ++k) {
-          std::string where = "dir " + std::string(1, d) + ", from rank " + std::to_string(q) + ", data-carrying receive #" + std::to_string(k);
+          std::string where = "call " + std::to_string(ci) + " dir " + std::string(1, d) + ", from rank " + std::to_string(q) + ", data-carrying receive #" + std::to_string(k);
           if (k >= got.size()) fail = where + ": items " + itemsStr(expect[k].second) + " for index " + std::to_string(expect[k].first) + " were never scattered (lost)";
           else if (k >= expect.size()) fail = where + ": unexpected extra scatter(index " + std::to_string(got[k]->index) + ", " + itemsStr(got[k]->items) + ") (duplicated or invented)";
           else if (got[k]->index != expect[k].first) fail = where + ": scattered to index " + std::to_string(got[k]->index) + " instead of " + std::to_string(expect[k].first);
@@ -291,9 +431,34 @@ static Result runCase(const Case& c) {
         for (auto& kv : have) if (!want.count(kv.first) && fail.empty())
           fail = "dir " + std::string(1, d) + ": gather called for index " + std::to_string(kv.first) + " which is in no send list";
       }
+      // ---- oracle: balance of the point-to-point operations of this call (all ranks have returned when the exchange
+      //      below completes): a receive posted for a message that is never sent is a request leaked into freed buffers,
+      //      a message for which no receive was posted is lost ----
+      // (tags: 933399 data and sizes of variable-size handles, 933881 the scalar size of fixed-size handles, anything else)
+      auto bucket = [](int tag) { return tag == 933399 ? 0 : tag == 933881 ? 1 : 2; };
+      static const char* bucketName[3] = {"tag 933399", "tag 933881", "another tag"};
+      long recvTotal = 0;
+      for (auto& kv : g_recvs) recvTotal += kv.second;
+      for (int bk = 0; bk < 3; ++bk) {
+        std::vector<long> sentTo(g_size, 0), sentToMe(g_size, 0), postedFor(g_size, 0);
+        for (auto& kv : g_sends) if (bucket(kv.first.second) == bk && kv.first.first >= 0 && kv.first.first < g_size) sentTo[kv.first.first] += kv.second;
+        for (auto& kv : g_recvs) if (bucket(kv.first.second) == bk && kv.first.first >= 0 && kv.first.first < g_size) postedFor[kv.first.first] += kv.second;
+        MPI_Alltoall(sentTo.data(), 1, MPI_LONG, sentToMe.data(), 1, MPI_LONG, MPI_COMM_WORLD);
+        for (int q = 0; q < g_size; ++q) {
+          if (me == 0 && bk == 0 && sentTo[q] > 0)
+            stat(sentTo[q] == 1 ? "msgs_to_a_neighbour_1" : sentTo[q] <= 3 ? "msgs_to_a_neighbour_2_3" : "msgs_to_a_neighbour_4plus");
+          std::string where = "call " + std::to_string(ci) + " dir " + std::string(1, d) + ", " + bucketName[bk] + ": ";
+          if (postedFor[q] > sentToMe[q] && fail.empty())
+            fail = where + std::to_string(postedFor[q]) + " receives posted for rank " + std::to_string(q) + " but only " + std::to_string(sentToMe[q]) + " messages were sent: a receive request is still pending after the call returned";
+          if (postedFor[q] < sentToMe[q] && recvTotal > 0 && fail.empty())
+            fail = where + "rank " + std::to_string(q) + " sent " + std::to_string(sentToMe[q]) + " messages but only " + std::to_string(postedFor[q]) + " receives were posted for it";
+        }
+      }
+      if (g_maxMsgItems > c.B && fail.empty())
+        fail = "a message of " + std::to_string(g_maxMsgItems) + " items was sent, more than the buffer size";
+      g_maxMsgItems = 0;
     }
   }  // communicator freed here (collective MPI_Comm_free)
-  for (auto& kv : imap) { kv.second.first.free(); kv.second.second.free(); }
   res.impl = out;
   res.oracle = !fail.empty() ? "FAIL " + fail : (nontrivial ? "ok" : "ok trivial");
   return res;
@@ -301,11 +466,25 @@ static Result runCase(const Case& c) {
 
 static void caseStats(const Case& c) {
   stat(c.fixed ? "mode_fixed" : "mode_variable");
-  stat(std::string("type_") + (c.ty == 'l' ? "long" : "pod"));
-  stat("dirs_" + c.dirs);
+  stat(std::string("type_") + std::string(1, c.ty));
+  stat(std::string("ctor_") + std::string(1, c.ctor));
+  stat("calls_" + std::to_string(c.dirs.size()));
+  bool mixed = false;
+  for (char d : c.dirs) if (d == 'F' || d == 'B') mixed = true;
+  if (mixed) stat("cases_mixing_fixed_and_variable_calls");
   stat(c.B >= 1000 ? "B_large" : "B_" + std::to_string(c.B));
-  if (c.fixed) stat(c.f == c.B ? "fixed_f_eq_B" : (c.f == 1 ? "fixed_f_1" : "fixed_f_other"));
-  for (char d : c.dirs)
+  {
+    std::set<long> fs(c.fixedOf.begin(), c.fixedOf.end());
+    bool anyFixed = false;
+    for (char d : c.dirs) if (c.fixedCall(d)) anyFixed = true;
+    if (anyFixed) {
+      stat(fs.size() > 1 ? "fixed_sizes_differ_between_ranks" : "fixed_sizes_equal_on_all_ranks");
+      for (long f : fs) stat(f == c.B ? "fixed_f_eq_B" : (f == 1 ? "fixed_f_1" : "fixed_f_other"));
+    }
+  }
+  for (char d : c.dirs) {
+    const bool fx = c.fixedCall(d);
+    stat(std::string("call_") + (Case::forwardCall(d) ? "forward_" : "backward_") + (fx ? "fixed" : "variable"));
     for (int p = 0; p < c.P; ++p)
       for (int q : c.present[p]) {
         const auto& sl = sendList(c, d, p, q);
@@ -318,11 +497,12 @@ static void caseStats(const Case& c) {
         // independent count of the message rounds a greedy whole-index packing needs
         long rounds = 0, fill = 0;
         for (long x : sl) {
-          long n = c.sizeOf(p, x);
+          long n = c.sizeOf(fx, p, x);
           total += n;
           if (n == 0) ++zeros;
           if (n == c.B) stat("index_size_eq_B");
           else if (n == c.B - 1 && n > 0) stat("index_size_eq_B-1");
+          else if (n > 2) stat("index_size_midrange");
           if (n > 0 && (rounds == 0 || fill + n > c.B)) { ++rounds; fill = 0; }
           fill += n;
         }
@@ -330,8 +510,9 @@ static void caseStats(const Case& c) {
         else if (zeros) stat("interfaces_with_some_zero_sizes");
         if (rounds > 1) stat("multi_round_interfaces");
         if (rounds > 3) stat("interfaces_with_4plus_rounds");
-        if (!c.fixed && (long)sl.size() > c.B) stat("size_exchange_multi_round");
+        if (!fx && (long)sl.size() > c.B) stat("size_exchange_multi_round");
       }
+  }
 }
 
 static Result exec(const std::string& line) {
@@ -340,7 +521,13 @@ static Result exec(const std::string& line) {
   if (!c.err.empty()) { r.impl = "bad-op"; r.oracle = "FAIL harness cannot parse the op line (" + c.err + ")"; return r; }
   if (c.P != g_size) { r.impl = "bad-np"; r.oracle = "FAIL op line is for " + std::to_string(c.P) + " processes"; return r; }
   if (g_rank == 0) caseStats(c);
-  return c.ty == 'l' ? runCase<long>(c) : runCase<PodItem>(c);
+  switch (c.ty) {
+    case 'l': return runCase<long>(c);
+    case 'p': return runCase<PodItem>(c);
+    case 'c': return runCase<PairItem>(c);
+    case 'v': return runCase<FvItem>(c);
+    default: return runCase<NestedItem>(c);
+  }
 }
 
 // ---------------------------------------------------------------------------------------------------------------
@@ -363,18 +550,27 @@ static std::string gen(Rng& rng, long, const Args& a) {
   bool thorough = a.tier == "thorough";
   int P = g_size;
   static const std::vector<long> Bs = {1, 1, 2, 2, 3, 3, 4, 5, 7, 8, 16};
-  long B = rng.coin(1, 25) ? 32768 : rng.pick(Bs);
+  long B = rng.coin(1, 20) ? 32768 : rng.pick(Bs);
   bool big = B > 1000;
   bool fixed = rng.coin(2, 5);
-  long f = 1;
-  if (fixed) {
-    std::vector<long> fs = {1, 2, B - 1, B, (B + 1) / 2};
-    if (big) fs = {1, 2, 3, 5};
-    do f = rng.pick(fs); while (f < 1 || f > B);
-  }
-  static const std::vector<std::string> dirsS = {"f", "f", "f", "f", "b", "b", "b", "b", "fb", "bf", "ff", "bb"};
+  static const std::vector<std::string> dirsS = {"f", "f", "f", "f", "b", "b", "b", "b", "fb", "bf", "ff", "bb",
+                                                 "fF", "Fb", "bB", "BF", "fbf", "bFb", "FfB", "fBbF"};
   std::string dirs = rng.pick(dirsS);
-  char ty = rng.coin(3, 10) ? 'p' : 'l';
+  bool needFixed = false, needVar = false;
+  for (char d : dirs) { if (((d == 'f' || d == 'b') ? fixed : !fixed)) needFixed = true; else needVar = true; }
+  auto pickF = [&]() -> long {
+    std::vector<long> fs = {1, 2, B - 1, B, (B + 1) / 2, 1 + (long)rng.below(B)};
+    if (big) fs = {1, 2, 3, 5};
+    long f;
+    do f = rng.pick(fs); while (f < 1 || f > B);
+    return f;
+  };
+  long f = needFixed ? pickF() : 1;
+  static const std::vector<std::string> tys = {"l", "l", "l", "p", "p", "c", "c", "v", "v", "n"};
+  std::string ty = rng.pick(tys);
+  std::string ctor = "m";
+  if (big) { if (rng.coin(3, 5)) ctor = rng.coin() ? "M" : "I"; }
+  else if (rng.coin(2, 5)) { static const std::vector<std::string> cs = {"i", "i", "c", "a"}; ctor = rng.pick(cs); }
   long maxloc = thorough ? 9 : 5, maxlen = thorough ? 14 : 6;
   std::vector<long> nloc(P);
   for (int p = 0; p < P; ++p) nloc[p] = rng.coin(1, 12) ? 0 : 1 + (long)rng.below(maxloc);
@@ -410,11 +606,17 @@ static std::string gen(Rng& rng, long, const Args& a) {
       if (kind != 8) edge(q, p);
     }
   if (segs.empty()) segs.push_back("S 0 []");
-  if (!fixed) {
+  if (needFixed && rng.coin()) {
+    // the ranks' handles have different fixed sizes: the receiver has to use the size its peer announced
+    for (int p = 0; p < P; ++p)
+      if (rng.coin(2, 3)) segs.push_back("F " + std::to_string(p) + " " + std::to_string(pickF()));
+  }
+  if (needVar) {
     std::vector<long> alphabet = {0, 1, 2, B - 1, B};
     if (big) alphabet = {0, 1, 2, 3, 5};
     std::vector<long> al;
     for (long x : alphabet) if (x >= 0 && x <= B) al.push_back(x);
+    auto pickSize = [&]() -> long { return (!big && rng.coin(1, 6)) ? (long)rng.below(B + 1) : rng.pick(al); };
     int stream = (int)rng.below(8);  // 0-2 random, 3 all zero, 4 some ranks all zero, 5 one non-zero, 6 all B, 7 zero-heavy
     bool oneBigDone = false;
     for (int p = 0; p < P; ++p) {
@@ -424,19 +626,18 @@ static std::string gen(Rng& rng, long, const Args& a) {
       for (long i = 0; i < nloc[p]; ++i) {
         long n;
         if (rankZero) n = 0;
-        else if (stream == 5) n = (i == lucky) ? rng.pick(al) : 0;
+        else if (stream == 5) n = (i == lucky) ? pickSize() : 0;
         else if (stream == 6) n = big ? 5 : B;
-        else if (stream == 7) n = rng.coin() ? 0 : rng.pick(al);
-        else n = rng.pick(al);
+        else if (stream == 7) n = rng.coin() ? 0 : pickSize();
+        else n = pickSize();
         if (big && thorough && !oneBigDone && !rankZero && rng.coin(1, 40)) { n = rng.coin() ? B : B - 1; oneBigDone = true; }
         s[i] = n;
       }
       segs.push_back("S " + std::to_string(p) + " " + listStr(s));
     }
   }
-  // shuffle the segment order a little: the meaning depends only on the relative order of equal (p,q) edges
   std::string line = "c06 P=" + std::to_string(P) + " B=" + std::to_string(B) + " mode=" + (fixed ? "f" : "v") + " f=" + std::to_string(f) +
-                     " ty=" + std::string(1, ty) + " dirs=" + dirs + " : " + join(segs.begin(), segs.end(), ";");
+                     " ty=" + ty + " dirs=" + dirs + (ctor == "m" ? "" : " ctor=" + ctor) + " : " + join(segs.begin(), segs.end(), ";");
   return line;
 }
 
